@@ -2,6 +2,7 @@ package main
 
 import (
 	"fmt"
+	"go/types"
 	"sort"
 	"strings"
 
@@ -429,6 +430,7 @@ func c12r6(r *R) {
 		"(*martian.Processors).ForDirection":             "invalid direction constant",
 		"(*martian/h2.Processors).ForDirection":          "invalid direction constant (h2 relay unreachable in the forwarder binary)",
 		"martian/header.randomBoundary":                  "crypto/rand failure at start-up",
+		"martian.init#1":                                 "start-up linkage check, before any connection is accepted",
 		"(*martian/mitm.Config).cert":                    "none expected",
 		"martian/proxyutil.NewResponse":                  "none expected",
 	}
@@ -450,8 +452,12 @@ func c12r6(r *R) {
 			if !ok || ta.CommaOk {
 				return
 			}
+			if it, isI := ta.AssertedType.Underlying().(*types.Interface); isI && types.Implements(ta.X.Type(), it) {
+				return // go/ssa's nil check for a method value taken from an interface; cannot fail on the type
+			}
 			site := fname(fn) + "#assert(" + typeStr(ta.AssertedType) + ")"
-			okSite := strings.HasSuffix(typeStr(ta.AssertedType), "*[]byte") || strings.Contains(fname(fn), "martian/fifo") || strings.Contains(fname(fn), "streamProcessors")
+			okSite := strings.HasSuffix(typeStr(ta.AssertedType), "*[]byte") || strings.Contains(fname(fn), "martian/fifo") || strings.Contains(fname(fn), "streamProcessors") ||
+				(fn.Name() == "ContextTraceID" || fn.Name() == "ContextDuration") && typeStr(ta.AssertedType) == "martian.traceID" // private context key: only withTraceID stores under it, always a traceID
 			r.check(okSite, site, ta.Pos(), "element type of the copy-buffer pool / internal container", "unchecked type assertion in the request path: a value of another type crashes the process")
 		})
 	}
